@@ -4,7 +4,7 @@ from pyvc.prims import all_of, any_of, same_map
 
 ParamU = U('RParam')
 ReprU = U('ReprText', plain=True)
-RecordU = U('Record', plain=True)
+RecordU = Dyn
 InputsU = U('InputKeys', plain=True)
 U_ATTRS = {'RParam': {'name': Str}}
 U_PURE_METHODS = {'RParam': {'value_repr': ReprU}}
@@ -70,18 +70,18 @@ def fri_saved(self, old_self, trace):
     object logs, never otherwise"""
     logging_data = self._data is not None and self._data.is_logging
     return trace.count('save_run_info') == (1 if logging_data else 0) and \
-        ((not logging_data) or trace.arg('save_run_info', 0) is self._run_info)
+        (trace.count('save_run_info') == 0 or trace.arg('save_run_info', 0) is self._run_info)
 
 
 def fri_keeps(self, old_self):
     """finishing keeps what was recorded: task, parameters, log, config sections untouched"""
-    return all_of(self._run_info['task'] is old_self._run_info['task'], self._run_info['log'] is old_self._run_info['log'],
-                  self._run_info['parameters'] is old_self._run_info['parameters'])
+    return all_of(self._run_info['task']['name'] == old_self._run_info['task']['name'], self._run_info['log'] == old_self._run_info['log'],
+                  same_map(self._run_info['parameters'], old_self._run_info['parameters']))
 
 
 def run_info_shape():
     return DictOf(task=DictOf(name=S(Str, 'ri_name')), parameters=SymDict(Str, ReprU, 'ri_params'),
-                  log=SymList(RecordU, 'ri_log'), started=S(U('Time', plain=True), 'ri_started'))
+                  log=SymList(RecordU, 'ri_log'), started=S(Int, 'ri_started'))
 
 
 CONTRACTS = [
